@@ -219,9 +219,27 @@ let () =
                           else
                             (match w_read_name (PW { wsegs = ss; wseg = O; wpos = O }) with HOk (_, _) -> "ok" | HEof _ | HErr _ -> "err" | HPanic _ -> "panic" | HFuel -> "fuel") in
                   r
+              | "ReadPacket" | "ReadData" | "ReadInterest" ->
+                  (* spec.go glue over the generated Packet parser; the parameters-digest comparison (SHA-256) is an oracle bit:
+                     compared only when the outcome does not depend on it *)
+                  let pk = int_of_nat (List.nth spec2022_ix 0) in
+                  if pk >= List.length all_schemas then "" else begin
+                    let sc = schema_of pk and mi = List.nth spec2022_ix 1 and ix = ix_of_list spec2022_ix in
+                    let str = function Ok _ -> "ok" | Err _ -> "err" | Panic _ -> "panic" in
+                    let run dok =
+                      match fn, rd with
+                      | "ReadPacket", "B" -> str (read_packet_b ix dok sc mi flat)
+                      | "ReadPacket", _ -> str (read_packet_w ix dok sc mi ss)
+                      | "ReadData", "B" -> str (read_data_b ix sc mi flat)
+                      | "ReadData", _ -> str (read_data_w ix sc mi ss)
+                      | "ReadInterest", "B" -> str (read_interest_b ix dok sc mi flat)
+                      | _, _ -> str (read_interest_w ix dok sc mi ss) in
+                    let a = run true and b = run false in
+                    if a = b then a else (bump "H:digest-dependent"; "")
+                  end
               | _ -> "" in
             if m <> "" then begin
-              bump ("H:" ^ fn);
+              bump ("H:" ^ fn); bump ("H:" ^ fn ^ ":" ^ m);
               let r = (match String.index_opt res ':' with Some i -> String.sub res 0 i | None -> res) in
               if m <> r then diverge ("HAND:" ^ fn) m r
             end
